@@ -1008,10 +1008,11 @@ pub fn int_vector_loop(push_state: &mut PushState, _instruction_cache: &Instruct
     }
 }
 
-/// INTVECTOR.MEAN: Pushes the mean of the top INTVECTOR to the float stack
+/// INTVECTOR.MEAN: Pushes the mean of the top INTVECTOR to the float stack. The sum is
+/// accumulated in i64 and therefore exact.
 pub fn int_vector_mean(push_state: &mut PushState, _instruction_cache: &InstructionCache) {
     if let Some(numbers) = push_state.int_vector_stack.get(0) {
-        let sum = numbers.values.iter().sum::<i32>() as f32;
+        let sum = numbers.values.iter().map(|x| *x as i64).sum::<i64>() as f32;
         let size = numbers.values.len() as f32;
         push_state.float_stack.push(sum / size);
     }
@@ -1121,10 +1122,13 @@ pub fn int_vector_stack_depth(push_state: &mut PushState, _instruction_cache: &I
         .push(push_state.int_vector_stack.size() as i32);
 }
 
-/// INTVECTOR.SUM Pushes the sum of the elements to the INTEGER stack.
+/// INTVECTOR.SUM Pushes the sum of the elements to the INTEGER stack. Like INTEGER.+ the
+/// sum wraps around if it does not fit into an INTEGER.
 pub fn int_vector_sum(push_state: &mut PushState, _instruction_cache: &InstructionCache) {
     if let Some(ivec) = push_state.int_vector_stack.get(0) {
-        push_state.int_stack.push(ivec.values.iter().sum());
+        push_state
+            .int_stack
+            .push(ivec.values.iter().fold(0i32, |acc, x| acc.wrapping_add(*x)));
     }
 }
 
